@@ -134,9 +134,13 @@ def one_case(args):
     its_mode = mode.endswith("its")
     running = mode.startswith("all")
     want10, want11 = set(), set()
+    # configuration dimension: a custom-checks file that fixes the expected RDH version (then every RDH is compared with it instead of with the first RDH of its link)
+    cfg_version = None
+    if rng.random() < 0.3:
+        cfg_version = version if rng.random() < 0.8 else 13 - version
     for l in range(nlinks):
         rr = refmodel.RdhRunning()
-        first_id = links[l][0]["header_id"]
+        first_id = links[l][0]["header_id"] if cfg_version is None else cfg_version
         for i, f in enumerate(links[l]):
             if not refmodel.rdh_sanity_ok(f, first_id, its_mode):
                 want10.add(offsets[(l, i)])
@@ -146,9 +150,15 @@ def one_case(args):
     write_file(path, bytes(data))
     use_stdin = rng.random() < 0.2
     argv = ([] if use_stdin else [path]) + obs.MODES[mode] + (["-m"] if rng.random() < 0.3 else [])
+    if cfg_version is not None:
+        tp = os.path.join(wd, "c%d.toml" % case)
+        write_file(tp, "rdh_version = %d\n" % cfg_version)
+        argv += ["-c", tp]
     r = obs.run(exe, argv, stdin_path=path if use_stdin else None, workdir=wd, stats="json", tag="c%d" % case)
     os.unlink(path)
-    desc = "%d RDHs on %d links, faults %s, check %s" % (len(order), nlinks, faults[:6], mode)
+    if cfg_version is not None:
+        os.unlink(tp)
+    desc = "%d RDHs on %d links, faults %s, check %s%s" % (len(order), nlinks, faults[:6], mode, "" if cfg_version is None else ", rdh_version = %d configured" % cfg_version)
     out["sample"] = desc
 
     def bad(what):
